@@ -715,12 +715,31 @@ func runC14(c *Ctx) *Replay {
 		return c.shrinkConcurrent(&sc, viol)
 	}
 	// reader-chunking independence on the same text and on a torn copy of it
-	for i := 0; i < 4; i++ {
+	for i := 0; i < 6; i++ {
 		text := []byte(p.Bop)
+		if i >= 2 {
+			// other layouts: block remarks, CRLF, trailing remarks
+			text = []byte(p.Schema.PrintLayout(schema.Layout{Indent: "\t", Comments: true, Block: i%2 == 0, CRLF: i == 3, Trailing: i % 3}))
+		}
 		if i%2 == 1 && len(text) > 0 {
 			text = text[:r.Intn(len(text))]
 		}
-		ci := Scenario{Kind: "chunkindep", Prog: p.ID, Input: text, Sched: drawSchedule(r, len(text), nil)}
+		sched := drawSchedule(r, len(text), nil)
+		if i >= 4 {
+			// the first Read ends INSIDE a two-character token (remark delimiters, arrows,
+			// shifts, CRLF), the rest follows in one piece
+			var cand []int
+			for k := 1; k < len(text); k++ {
+				switch string(text[k-1 : k+1]) {
+				case "*/", "/*", "//", "->", "<<", ">>", "\r\n":
+					cand = append(cand, k)
+				}
+			}
+			if len(cand) > 0 {
+				sched = &simnet.Schedule{Name: "split-token", Chunks: []int{cand[r.Intn(len(cand))]}}
+			}
+		}
+		ci := Scenario{Kind: "chunkindep", Prog: p.ID, Input: text, Sched: sched}
 		v := execChunkIndep(c.N, &ci)
 		c.Count("evaluations", 1)
 		c.Count("chunkindep:"+ci.Sched.Name, 1)
